@@ -59,6 +59,8 @@ Definition comp_sarg (v : var) (a : sarg) : option (list instr) :=
   | ACall0 f => Some [Iload v; Icall (NF0 f)]
   end.
 
+Definition is_const1 (l : list instr) : option jv := match l with [Iconst x] => Some x | _ => None end.
+
 Fixpoint comp (q : query) (ce : cenv) (pc nv : nat) : option (list instr * nat) :=
   match q with
   | QId => Some ([], nv)
@@ -97,8 +99,8 @@ Fixpoint comp (q : query) (ce : cenv) (pc nv : nat) : option (list instr * nat) 
               let e := pcc + 1 + length ca + 1 in
               match comp b ce e n2 with
               | Some (cb, n3) =>
-                  match ca, cb with
-                  | [Iconst x], [Iconst y] =>
+                  match is_const1 ca, is_const1 cb with
+                  | Some x, Some y =>     (* optimize constant results *)
                       Some (Inop :: tl pre ++ [Ijumpifnot e; Ipush x; Ijump (e + 1); Ipush y], n3)
                   | _, _ =>
                       Some (pre ++ Ijumpifnot e :: ca ++ Ijump (e + length cb) :: cb, n3)
